@@ -14,6 +14,20 @@ import Mathlib.Tactic.Ring
 namespace DPL.ClipL
 open DPL
 
+theorem map_eq_self {β : Type} (f : β → β) : ∀ (l : List β), (∀ x ∈ l, f x = x) → l.map f = l
+  | [], _ => rfl
+  | x :: xs, h => by
+    rw [List.map_cons, h x List.mem_cons_self, map_eq_self f xs (fun y hy => h y (List.mem_cons_of_mem _ hy))]
+
+theorem forall₂_exists_left {β γ : Type} {R : β → γ → Prop} : ∀ {l₁ : List β} {l₂ : List γ},
+    List.Forall₂ R l₁ l₂ → ∀ b ∈ l₂, ∃ a ∈ l₁, R a b
+  | _, _, .nil, b, hb => by cases hb
+  | _, _, .cons (a := a) (l₁ := l₁) hab hrest, b, hb => by
+    rcases List.mem_cons.mp hb with rfl | hb'
+    · exact ⟨a, List.mem_cons_self, hab⟩
+    · obtain ⟨a', ha', hr⟩ := forall₂_exists_left hrest b hb'
+      exact ⟨a', List.mem_cons_of_mem _ ha', hr⟩
+
 section order
 variable {α : Type} [LinearOrder α]
 
